@@ -317,7 +317,7 @@ def stage2(mut: dict, props: list[str]) -> dict:
             if caught:
                 mut["verdict"] = f"caught:{pid}"
                 break
-            if rc not in (0, 1):
+            if rc not in (0, 1) or (rc == 1 and not caught):
                 mut["verdict"] = f"check-exit-{rc}:{pid}"
                 mut["checks"][pid]["tail"] = out[-600:]
                 break
